@@ -50,6 +50,10 @@ all coefficients, so the flag is not even an argument of `inferDtype` -/
 theorem old_dtype_depended_on_option :
     inferDtypeOld false [(.i64, false), (.f64, true)] ≠ inferDtypeOld true [(.i64, false), (.f64, true)] := by
   decide +kernel
+/-- (the inferred type is the promotion of *all* the coefficient types, in the order given, by the pairwise table; for
+one or two types that is numpy's `result_type`. numpy's promotion of three or more types at once is not always this left
+fold - `result_type(int8, uint16, complex64)` is complex64, the fold gives complex128 -, so beyond two types the run
+compares the implementation with numpy's own n-ary `result_type` and counts the fold's deviations as drift of the model) -/
 theorem dtype_is_promotion_of_all (c : DType × Bool) (cs : List (DType × Bool)) :
     inferDtype (c :: cs) = some (cs.foldl (fun d x => promote d x.1) c.1) := rfl
 
